@@ -328,7 +328,24 @@ def check_case(dtype, shape, pats, root, tier):
     except Exception:  # noqa: BLE001
         onnx_ok = False
     a = tb = None
-    for label, t in representations(dtype, shape, pats, root, tier):
+
+    def _guarded():
+        # building a representation from valid data must not raise: report it as a violation of the case (the
+        # generator cannot be resumed, so the remaining representations of this case are skipped)
+        it = representations(dtype, shape, pats, root, tier)
+        last = "<first>"
+        while True:
+            try:
+                label_, t_ = next(it)
+            except StopIteration:
+                return
+            except Exception as e:  # noqa: BLE001
+                bad(f"after {last}", "valid_representation_cannot_be_built", f"{type(e).__name__}: {e}"[:160])
+                return
+            last = label_
+            yield label_, t_
+
+    for label, t in _guarded():
         nchecks += 1
         try:
             if t.dtype != dtype:
